@@ -89,7 +89,7 @@ pub struct CanonResult { pub opaque: u8 }
 
 impl ExecutedState {
 //@ lift crates/air-lib/interpreter-data/src/executed_state/impls.rs :: impl ExecutedState :: fn par
-//@ props C10 C01
+//@ props C10 C01 C08
 //@ ret r
 //@ spec
         // `as _` is `as u32`: it truncates silently (never panics); exactness is par_protocol's business
@@ -135,14 +135,14 @@ impl DataKeeper {
     }
 
 //@ lift crates/air-lib/trace-handler/src/data_keeper/keeper.rs :: impl DataKeeper :: fn result_states_count
-//@ props C10 C01
+//@ props C10 C01 C08
 //@ ret r
 //@ spec
         ensures r == self.rlen()
 //@ end
 
 //@ lift crates/air-lib/trace-handler/src/data_keeper/keeper.rs :: impl DataKeeper :: fn result_trace_next_pos
-//@ props C10 C01
+//@ props C10 C01 C08
 //@ ret r
 //@ spec
         requires self.rlen() <= u32::MAX     // the real trace_states_count() `expect`s this
@@ -163,7 +163,7 @@ impl StateInserter {
     pub closed spec fn pos(&self) -> nat { self.position.0 as nat }
 
 //@ lift crates/air-lib/trace-handler/src/state_automata/state_inserter.rs :: impl StateInserter :: fn from_keeper
-//@ props C10 C01
+//@ props C10 C01 C08
 //@ ret r
 //@ spec
         requires old(data_keeper).rlen() <= u32::MAX
@@ -176,7 +176,7 @@ impl StateInserter {
 //@ end
 
 //@ lift crates/air-lib/trace-handler/src/state_automata/state_inserter.rs :: impl StateInserter :: fn insert
-//@ props C10 C01
+//@ props C10 C01 C08
 //@ rewrite 1 "data_keeper.result_trace[self.position] = state;" => "data_keeper.result_trace.set_at(self.position, state);"
 //@ spec
         requires self.pos() < old(data_keeper).rlen()      // the result trace never shrinks below the placeholder
@@ -214,14 +214,14 @@ pub open spec fn pb_built(b: ParBuilder, r: ExecutedState) -> bool {
 
 impl ParBuilder {
 //@ lift crates/air-lib/trace-handler/src/state_automata/par_fsm/par_builder.rs :: impl ParBuilder :: fn from_keeper
-//@ props C10 C01
+//@ props C10 C01 C08
 //@ ret r
 //@ spec
         ensures pb_started(r, data_keeper.rlen())
 //@ end
 
 //@ lift crates/air-lib/trace-handler/src/state_automata/par_fsm/par_builder.rs :: impl ParBuilder :: fn track
-//@ props C10 C01
+//@ props C10 C01 C08
 //@ spec
         // call-order precondition (assumed from ParFSM / the executor, listed): the result trace only grows
         requires old(self).saved() <= data_keeper.rlen()
@@ -229,7 +229,7 @@ impl ParBuilder {
 //@ end
 
 //@ lift crates/air-lib/trace-handler/src/state_automata/par_fsm/par_builder.rs :: impl ParBuilder :: fn build
-//@ props C10 C01
+//@ props C10 C01 C08
 //@ ret r
 //@ spec
         ensures pb_built(self, r)
